@@ -244,13 +244,14 @@ def tlc_suite(v, d, cfg, mcp, name):
     n = tlc.write_mc(v.dir, d.name, cfg, "mc", v.vars, maxcalls=mcp["maxcalls"], budget=mcp["budget"], apis=mcp["apis"], dirops=mcp["dirops"],
                      direvs=mcp["direvs"], ninst=mcp.get("ninst", 1), percall=mcp.get("percall", True), invariants=[], name=name, extra_defs=extra, constraint="EmitPath")
     rc, out, t = tlc.run_tlc(v.dir, n, workers=1, timeout=1500, heap="6g")
-    if rc != 0:
+    if rc != 0 and not (rc == 124 and '<<"PATH"' in out):     # time limit: breadth-first, so the scripts emitted so far are the shortest ones
         raise ToolError("suite generation failed for %s/%s (rc=%d):\n%s" % (d.name, cfg, rc, out[-2000:]))
     scripts = []
     seen = set()
     for m in re.finditer(r'<<"PATH", "(.*)">>', out):
         js = m.group(1).replace('\\"', '"')
-        sc = path_to_script(json.loads(js))
+        try: sc = path_to_script(json.loads(js))
+        except ValueError: continue       # last line cut by the time limit
         key = "\n".join(sc)
         if key not in seen and len(sc) > 1:
             seen.add(key); scripts.append(sc)
